@@ -215,8 +215,14 @@ func (c *CEnv) evalH(e *CE, hint *Value) Value {
 		cond := c.bothPolarities(func() *Term { return c.evalBool(e.Args[0]) })
 		a := c.evalH(e.Args[1], hint)
 		b := c.evalH(e.Args[2], &a)
-		if _, isNum := litValue(a.X); a.K == KScalar && isNum && e.Args[1].Kind == "num" {
+		if a.K == KScalar && a.X != nil && e.Args[1].Kind == "num" {
 			a = c.evalH(e.Args[1], &b)
+		}
+		if e.Args[1].Kind == "nil" && a.K != b.K {
+			a = c.evalH(e.Args[1], &b)
+		}
+		if e.Args[2].Kind == "nil" && a.K != b.K {
+			b = c.evalH(e.Args[2], &a)
 		}
 		return c.x.mergeValues(cond, a, b)
 	case "bin":
@@ -721,11 +727,15 @@ func (c *CEnv) quant(e *CE) Value {
 		sort := m.specSort(e.Typ)
 		s := Sym(name, sort)
 		t, _ := basicByName(e.Typ)
-		val := Value{K: KScalar, T: t, X: s}
+		val := specParamValue(c.pkg, m, Param{Name: v, Type: e.Typ}, s)
 		if t != nil {
 			if it, ok := intTyOf(t); ok {
 				guards = append(guards, m.inRange(s, it))
 			}
+		}
+		if val.K == KPtr && !c.heap().Spec {
+			// quantification over the objects that exist: allocated, non-negative references
+			guards = append(guards, iLe(IntLit(0), s), iLt(s, c.x.alloc(c.heap())))
 		}
 		nb[v] = val
 		vars = append(vars, [2]string{name, sort})
@@ -883,6 +893,19 @@ func (c *CEnv) callExpr(e *CE, hint *Value) Value {
 		}
 		return Value{K: KScalar, T: types.Typ[types.Int], X: a.Off}
 	}
+	// a pure scalar Go function of the package, named in a contract
+	if fn, fc, pkg := c.lookupPureFn(name); fn != nil && len(e.Args) == len(fn.Params) {
+		var args []Value
+		for k, p := range fn.Params {
+			z := c.x.zeroValue(p.Type())
+			a := c.evalH(e.Args[k], &z)
+			if a.K != KScalar || a.X.S != z.X.S {
+				c.fail("argument %d of %s has the wrong sort in %s", k+1, name, e)
+			}
+			args = append(args, a)
+		}
+		return c.x.pureCallValue(c.fr, c.heap(), fn, fc, pkg, args)
+	}
 	// spec function
 	if sf := c.findSpec(name); sf != nil {
 		if len(sf.Params) != len(e.Args) {
@@ -919,8 +942,16 @@ func (c *CEnv) callExpr(e *CE, hint *Value) Value {
 		for _, hp := range c.x.vc.specHeap[sf.Name] {
 			args = append(args, c.x.comp(c.heap(), hp[0], hp[1]))
 		}
+		app := App(quoteSym(name), m.specSort(sf.Ret), args...)
+		if _, ok := goBasicByName(sf.Ret); !ok {
+			sp := c.pkg
+			if p2 := c.x.vc.uni.specPkg(sf); p2 != nil {
+				sp = p2
+			}
+			return specParamValue(sp, m, Param{Type: sf.Ret}, app)
+		}
 		rt, _ := basicByName(sf.Ret)
-		return Value{K: KScalar, T: rt, X: App(quoteSym(name), m.specSort(sf.Ret), args...)}
+		return Value{K: KScalar, T: rt, X: app}
 	}
 	c.fail("unknown function %s in %s", name, e)
 	return Value{}
@@ -997,6 +1028,9 @@ func (vc *VC) useSpec(c *CEnv, sf *SpecFn) {
 		body = env.evalH(sf.Body, hint)
 	}
 	vc.sideStack = vc.sideStack[:len(vc.sideStack)-1] // typing facts about bound parameters are dropped
+	if (body.K == KPtr || body.K == KSlice) && body.Loc != nil {
+		body.X = body.Loc.Root
+	}
 	if body.X == nil || body.X.S != rs {
 		got := "?"
 		if body.X != nil {
@@ -1106,6 +1140,13 @@ func (x *Exec) lookupLocal(fr *Frame, at *ssa.BasicBlock, st *State, name string
 func identName(d *ssa.DebugRef) string {
 	type namer interface{ Name() string }
 	if d.Expr == nil {
+		return ""
+	}
+	// the selector identifier of x.f also gets a DebugRef: a struct field is not a local variable
+	if v, ok := d.Object().(*types.Var); ok && v.IsField() {
+		return ""
+	}
+	if _, ok := d.Object().(*types.Var); !ok {
 		return ""
 	}
 	if id, ok := d.Expr.(interface{ String() string }); ok {
